@@ -297,6 +297,7 @@ class Ctx:
     def _gate_and_record(self) -> int:
         """Reproducibility gate + replay files. Returns number of confirmed violations."""
         confirmed = 0
+        unreproduced: list = []
         rdir = HOME / "replays" / self.prop
         for key, (count, what, case) in sorted(self.violations.items()):
             gate_any = getattr(self.module, "gate_any", None)
@@ -311,7 +312,9 @@ class Ctx:
                         ok = True
                         break
                 if not ok:
-                    raise HarnessError(f"violation {key!r} (parallel case) did not reproduce in three replays; no verdict")
+                    # not reported (nothing is believed that does not show again); a harness error only if NO key of this run reproduces
+                    unreproduced.append(key)
+                    continue
             elif case is not None and hasattr(self.module, "replay_case") and not getattr(self.module, "NONDETERMINISM_IS_VIOLATION", False):
                 keys = []
                 for _ in range(2):
@@ -334,6 +337,10 @@ class Ctx:
                 print(f"  key={key} count={count} :: {what}")
             else:
                 print(f"  (further violation key={key} count={count} :: {what})")
+        if unreproduced and not confirmed:
+            raise HarnessError(f"violation(s) {unreproduced} (cases depending on hidden state or parallelism) did not reproduce in three replays; no verdict")
+        if unreproduced:
+            print(f"  (not reported: {unreproduced} did not show again in three replays)")
         return confirmed
 
     def finish(self) -> int:
